@@ -143,7 +143,7 @@ impl Prop for C07 {
             let producer = match rng.below(5) {
                 0 | 1 => Producer::View {
                     spec: if rng.chance(1, 12) {
-                        let target = *rng.pick(&[4095usize, 4097, 5000, 8193]);
+                        let target = *rng.pick(&[4095usize, 4097, 5000, 8193, 8193, 20000]);
                         let shape = gen::gen_large_shape(&mut rng, 4, target);
                         let n: usize = shape.iter().product();
                         let vals: Vec<f64> = (0..n).map(|_| gen::gen_value(&mut rng, 2)).collect();
